@@ -41,7 +41,7 @@ Fixpoint raw_json (v : raw) : json :=
   match v with
   | RNil => JNull | RBool b => JBool b | RNum l => JNum l | RStr s => JStr s
   | RArr l => JArr (map raw_json l)
-  | RMap m => JObj (map (fun kv => (fst kv, raw_json (snd kv))) m)
+  | RMap m => JObj (sort_keys (map (fun kv => (fst kv, raw_json (snd kv))) m))     (* json.Marshal sorts map keys *)
   end.
 Fixpoint json_raw (v : json) : raw :=
   match v with
